@@ -106,6 +106,10 @@ DumpsChecks(e) ==
        IF e.strict
        THEN << <<pre \o ".range_ok", r.ok>>,
                <<pre \o ".range_body", r.ok => BodyLines(r.grid) = (IF af = 0 THEN BodyLines(GridFrom(2, RangeLast(bt), o)) ELSE RangeBody(af, bt, o))>> >>
+            \* outside every listed property: the whole range export (reconstructed preamble included) is what the TRANSCRIBED algorithm of
+            \* the implementation gives (ExcerptImpl.tla) - also where that is not a well-formed excerpt (finding D15)
+            \o (IF af > 0 THEN << <<"impl.range_export_as_transcribed",
+                                    LET x == ImplExcerpt(af, a.hasto, bt, o) IN (r.ok = x.ok) /\ (r.ok => r.grid = x.grid)>> >> ELSE <<>>)
        ELSE <<>>
   ELSE IF ExportRaises(o) THEN << <<pre \o ".raises", ~r.ok>> >>
   ELSE << <<pre \o ".ok", r.ok>>,
